@@ -376,6 +376,12 @@ def sstep {Ct} (P : XP Ct) (cfg : SCfg) (t : STape) : SState → Msg Ct → SSta
   | .waitSetDH _ _, _ => (.failed .junk, none)
   | s, _ => (s, none)
 
+/-- The server fed with a whole sequence of incoming messages: final state and everything it sent. -/
+def srun {Ct} (P : XP Ct) (cfg : SCfg) (t : STape) : SState → List (Msg Ct) → SState × List (Msg Ct)
+  | s, [] => (s, [])
+  | s, m :: rest =>
+    ((srun P cfg t (sstep P cfg t s m).1 rest).1, (sstep P cfg t s m).2.toList ++ (srun P cfg t (sstep P cfg t s m).1 rest).2)
+
 /-! ## the honest composition over a faithful channel -/
 
 /-- Strict request/response: the message `m` is in flight to the server; each side reacts to what
